@@ -265,9 +265,10 @@ Definition step_app (s : state) : list (label * state) :=
 Definition step_net (s : state) : list (label * state) :=
   if peer_closed s && negb (is_nil (inbuf s)) then [(Tau, set_inbuf (removelast (inbuf s)) s)] else [].
 
-Definition sys_next_gen (timers : bool) (s : state) : list (label * state) :=
+Definition sys_core (timers : bool) (s : state) : list (label * state) :=
   step_connect s ++ step_exec s ++ step_read_gen timers s ++ step_linger s ++ step_send s ++ step_ping s
-  ++ step_app s ++ step_net s.
+  ++ step_app s.
+Definition sys_next_gen (timers : bool) (s : state) : list (label * state) := sys_core timers s ++ step_net s.
 Definition sys_next := sys_next_gen true.
 
 (* ---- environment ---- *)
@@ -485,8 +486,15 @@ Definition norm_linger (s : state) : state :=
   then set_linger false (set_inbuf (tl (inbuf s)) s) else s.
 Definition norm (s : state) : state := norm_linger (norm_read (norm_exec (norm_ping s))).
 
+(* The checker's successor function: no 30 s timers, and instead of losing unread lines one by
+   one after the peer closed (step_net) it loses all that are left in one go - lines are read
+   from the front, so "lose a suffix now" is "read some more, then lose the rest". *)
+Definition step_net_all (s : state) : list (label * state) :=
+  if peer_closed s && negb (is_nil (inbuf s)) then [(Tau, set_inbuf [] s)] else [].
+Definition chk_next (s : state) : list (label * state) := sys_core false s ++ step_net_all s.
+
 Definition tau_succs (s : state) : list state :=
-  map (fun p => norm (snd p)) (filter (fun p => is_hidden (fst p)) (sys_next_gen false s)).
+  map (fun p => norm (snd p)) (filter (fun p => is_hidden (fst p)) (chk_next s)).
 
 (* breadth-first closure under Tau steps: acc = everything found so far *)
 Fixpoint tau_close_aux (fuel : nat) (frontier acc : list state) (seen : sset) : list state :=
@@ -505,7 +513,7 @@ Definition tau_close (fuel : nat) (l : list state) : list state :=
   let (l', seen) := add_new l [] sempty in tau_close_aux fuel l' l' seen.
 
 Definition vis_succs (l : label) (s : state) : list state :=
-  map (fun p => norm (snd p)) (filter (fun p => label_eqb l (fst p)) (sys_next_gen false s))
+  map (fun p => norm (snd p)) (filter (fun p => label_eqb l (fst p)) (chk_next s))
   ++ match env_step l s with Some s' => [norm s'] | None => [] end.
 
 Fixpoint run (fuel : nat) (tr : list label) (cur : list state) : list state :=
